@@ -387,4 +387,172 @@ func e2eDelayComponent(r *hx.Run) {
 		r.Count("cmd:" + strings.Join(c.sub, " "))
 		r.Case(fmt.Sprintf("%s/d%d/inj%d", strings.Join(c.sub, " "), delayMs, injPct), "e2edelay", strings.Join(c.sub, "_"), fmt.Sprint(delayMs), fmt.Sprint(injPct), obs)
 	}
+
+	// ---- scenarios: the same observation (reply reported?, end of the engine run relative to its last probe, injection
+	// time) in runs where something else is going on ----
+	tcpPort := func(f []byte) int {
+		if len(f) >= 38 && f[12] == 8 && f[13] == 0 && f[23] == 6 && f[47] == 0x02 {
+			return int(binary.BigEndian.Uint16(f[36:38]))
+		}
+		return -1
+	}
+	scen := []string{"chunks", "errors", "quiet", "trickle"}
+	if r.Tier == "thorough" {
+		scen = append(scen, scen...)
+		scen = append(scen, "chunks", "chunks", "trickle")
+	}
+	for si, sc := range scen {
+		target := labNet | uint32(32+rng.Intn(200))
+		p0 := 2000 + rng.Intn(50000)
+		delayMs := 300
+		injPct := 50
+		var args []string
+		nPorts := 1
+		chunkOf := func(port int) int { return 0 }
+		ansChunk := 0
+		switch sc {
+		case "chunks":
+			// three engine runs (200 + 200 + n port ranges): the delay holds for each of them — the next run does not
+			// start before it has passed, and an answer to a probe of THIS run arriving within it is reported
+			nPorts = 401 + rng.Intn(40)
+			var ps []string
+			for i := 0; i < nPorts; i++ {
+				ps = append(ps, fmt.Sprint(p0+i))
+			}
+			pf := filepath.Join(dir, fmt.Sprintf("ports-%d.txt", si))
+			os.WriteFile(pf, []byte(strings.Join(ps, "\n")+"\n"), 0o644)
+			args = []string{"tcp", "syn", "--json", "--exit-delay", "300ms", "--ports-file", pf, "-a", writeArpCache(dir, []uint32{target}), v4Text(target)}
+			chunkOf = func(port int) int { return (port - p0) / 200 }
+			ansChunk = si % 2 // the first or the second run
+		case "errors":
+			// a scan that also reports errors (hosts without a MAC, no gateway entry in the cache): still the full delay
+			delayMs = 450
+			base := target &^ 3
+			target = base + 1
+			var sb strings.Builder
+			fmt.Fprintf(&sb, "{\"ip\":\"%s\",\"mac\":\"%s\"}\n", v4Text(target), e2eMacText(labMAC(target)))
+			cf := filepath.Join(dir, fmt.Sprintf("one-%d.cache", si))
+			os.WriteFile(cf, []byte(sb.String()), 0o644)
+			args = []string{"tcp", "syn", "--json", "--exit-delay", "450ms", "-p", fmt.Sprint(p0), "-a", cf, "--gwmac", "", fmt.Sprintf("%s/30", v4Text(base))}
+			args = []string{"tcp", "syn", "--json", "--exit-delay", "450ms", "-p", fmt.Sprint(p0), "-a", cf, fmt.Sprintf("%s/30", v4Text(base))}
+		case "quiet":
+			// a long delay, a network that is silent for more than a second, then the answer
+			delayMs, injPct = 2500, 68
+			args = []string{"tcp", "syn", "--json", "--exit-delay", "2500ms", "-p", fmt.Sprint(p0), "-a", writeArpCache(dir, []uint32{target}), v4Text(target)}
+		case "trickle":
+			// answers keep trickling in (one every 90 ms for 4 s): the run still ends when ITS delay is over
+			args = []string{"tcp", "syn", "--json", "--exit-delay", "300ms", "-p", fmt.Sprint(p0), "-a", writeArpCache(dir, []uint32{target}), v4Text(target)}
+		}
+		if sc == "errors" {
+			ipCmd("route", "del", "default")
+		}
+		lab.settle(30 * time.Millisecond)
+		lab.take()
+		type fin struct {
+			res sxRun
+			at  int64
+		}
+		finc := make(chan fin, 1)
+		go func() {
+			res := runSX(nil, 40*time.Second, args...)
+			finc <- fin{res, time.Now().UnixNano()}
+		}()
+		// the last probe of the engine run that gets the answer: all of its ports have been seen
+		var probe []byte
+		var tLast int64
+		need := nPorts
+		if sc == "chunks" {
+			need = 200
+		}
+		deadline := time.Now().Add(15 * time.Second)
+		for probe == nil && time.Now().Before(deadline) {
+			frames, ts := lab.peek()
+			seen := map[int]bool{}
+			var last int64
+			var cand []byte
+			for j, f := range frames {
+				if p := tcpPort(f); p >= 0 && binary.BigEndian.Uint32(f[30:34]) == target && chunkOf(p) == ansChunk {
+					if !seen[p] {
+						seen[p] = true
+						last = ts[j]
+					}
+					if cand == nil || rng.Intn(20) == 0 {
+						cand = f
+					}
+				}
+			}
+			if len(seen) >= need {
+				probe, tLast = cand, last
+			} else {
+				time.Sleep(time.Millisecond)
+			}
+		}
+		injected := int64(-1)
+		stopTrickle := make(chan struct{})
+		if probe != nil {
+			at := time.Unix(0, tLast).Add(time.Duration(delayMs*injPct/100) * time.Millisecond)
+			time.Sleep(time.Until(at))
+			select {
+			case f := <-finc:
+				finc <- f
+			default:
+				if err := lab.inject(replyTo("pkt-tcp", probe)); err == nil {
+					injected = time.Now().UnixNano() - tLast
+				}
+			}
+			if sc == "trickle" {
+				go func() {
+					for k := 0; k < 44; k++ {
+						select {
+						case <-stopTrickle:
+							return
+						case <-time.After(90 * time.Millisecond):
+							lab.inject(replyTo("pkt-tcp", probe))
+						}
+					}
+				}()
+			}
+		}
+		f := <-finc
+		close(stopTrickle)
+		if sc == "errors" {
+			ipCmd("route", "add", "default", "via", "10.0.0.254", "dev", "veth0")
+		}
+		obs := ""
+		switch {
+		case probe == nil:
+			obs = "rep=0|noprobe=1"
+		case f.res.timedOut || f.res.exit != 0:
+			obs = fmt.Sprintf("rep=0|fail=%d", f.res.exit)
+		default:
+			// the end of the engine run: the process's end, or (chunks) the first probe of the next run
+			end := f.at
+			if sc == "chunks" {
+				frames, ts := lab.peek()
+				for j, fr := range frames {
+					if p := tcpPort(fr); p >= 0 && binary.BigEndian.Uint32(fr[30:34]) == target && chunkOf(p) == ansChunk+1 {
+						end = ts[j]
+						break
+					}
+				}
+			}
+			rep := 0
+			wantPort := fmt.Sprintf("\"port\":%d", binary.BigEndian.Uint16(probe[36:38]))
+			for _, line := range strings.Split(f.res.stdout, "\n") {
+				if strings.Contains(line, "\""+v4Text(target)+"\"") && (strings.Contains(line, wantPort+",") || strings.Contains(line, wantPort+"}")) {
+					rep++
+				}
+			}
+			if sc == "trickle" && rep > 1 {
+				rep = 1 // every trickled answer that came within the delay is a record of its own: the first one is the point
+			}
+			injUs := int64(-1)
+			if injected >= 0 {
+				injUs = injected / 1000
+			}
+			obs = fmt.Sprintf("rep=%d|exit=%d;inj=%d", rep, (end-tLast)/1000, injUs)
+		}
+		r.Count("scenario:" + sc)
+		r.Case(fmt.Sprintf("tcp syn/%s/d%d", sc, delayMs), "e2edelay", "tcp_syn_"+sc, fmt.Sprint(delayMs), fmt.Sprint(injPct), obs)
+	}
 }
